@@ -30,7 +30,19 @@ def case_task(task):
                 get_map_node_ccfs_and_clonal_prev_dicts(other)
                 part.count("sibling_order_histories")
             tree, names = gen.build_tree(f, data, child_order_rng=rng if c["id"] % 2 else None)
+            from vlib import monitors
+            before = monitors.digest(tree)
             ccfs, prevs = get_map_node_ccfs_and_clonal_prev_dicts(tree)
+            if c["id"] % 2:
+                # the same Tree object summarised again (as a caller holding the tree may do): the later answer is the
+                # one examined below
+                for _ in range(2):
+                    ccfs, prevs = get_map_node_ccfs_and_clonal_prev_dicts(tree)
+                part.count("repeated_summaries_of_one_tree")
+            if monitors.digest(tree) != before:
+                part.violation("computing the reported CCFs changed the tree it was given (likelihood vectors / structure)",
+                               dict(case))
+                continue
         except Exception as e:
             et, where, msg = describe_exception(e)
             if where == "outside-repo":
